@@ -91,6 +91,13 @@ impl Interp {
                     Err(_) => "err".into(),
                 }
             }
+            ["addr.accept", a] => {
+                let Some(a) = parse_addr(a) else { return "bad-op".into() };
+                match octo_squirrel_client::client::verif::handshake::check_address(a) {
+                    Ok(_) => "1".into(),
+                    Err(_) => "0".into(),
+                }
+            }
             _ => "bad-op".into(),
         }
     }
